@@ -105,6 +105,27 @@ func VerifNegotiated(cl *ClientDnsConnection) (qt, up, down int, edns bool, upmt
 	return qt, up, down, s.UseEdns0, int(s.Upstream.FragmentSize), int(s.Downstream.FragmentSize)
 }
 
+// VerifClientLazy: the lazy-mode flag the client ended the handshake with.
+func VerifClientLazy(cl *ClientDnsConnection) bool { return cl.lazymode }
+
+// VerifUserOptions: what the server holds for a session: upstream codec, downstream codec, fragment size, lazy mode.
+func VerifUserOptions(c net.Conn) (up, down int, frag uint32, lazy bool) {
+	u := c.(*userConnection)
+	if u.Serializer.Upstream.Encoder != nil {
+		up = int(u.Serializer.Upstream.Encoder.Code())
+	}
+	if u.Serializer.Downstream.Encoder != nil {
+		down = int(u.Serializer.Downstream.Encoder.Code())
+	}
+	return up, down, u.Serializer.Downstream.FragmentSize, u.Serializer.UseLazyMode
+}
+
+// VerifUserOutLen: chunks waiting in a server-side session's out queue.
+func VerifUserOutLen(c net.Conn) int {
+	_, l, _ := c.(*userConnection).out.VerifState()
+	return l
+}
+
 // VerifUserState: sequence numbers, queue length and fragment size of a server-side session.
 func VerifUserState(c net.Conn) (inNext, outNext uint16, outLen int, frag uint32) {
 	u := c.(*userConnection)
